@@ -2,8 +2,9 @@
    and what compile / execute / run / runtime_error / reset_stack / reset / declare_class / define_class /
    start_import / finish_import do to it.  Faithful to the code, oddities included:
      - `handling_exception` is cleared at the START of execute (commit 8f090ae), so it is stale BETWEEN runs;
-     - execute drops the old fiber and creates a new one; runtime_error -> reset_stack clears `stack` and `frames`
-       of the ACTIVE fiber only, leaving exc_handlers / return_ip / error_ip / open upvalues of the dead fiber;
+     - execute drops the old fiber and creates a new one; runtime_error -> reset_stack closes the upvalues and clears
+       `stack` and `frames` of the ACTIVE fiber only, leaving its exc_handlers / return_ip / error_ip, and leaving
+       the fibers that called it untouched (open upvalues included);
      - `working_class_def` is set by DeclareClass and taken by DefineClass; an error in between leaves it set;
      - a module is registered in `modules` BEFORE its body runs and gets `imported = true` only by FinishImport;
        start_import answers a registered, not yet imported module with the "Circular dependency" ImportError;
@@ -168,9 +169,9 @@ Definition m_add_chunks (n : nat) (c : carried) : carried := with_chunks (c_chun
    new closure, new fiber, load_fiber (caller of the new fiber := the old self.fiber = None) *)
 Definition m_execute_start (c : carried) : carried := with_fibers [fresh_fiber] (with_he false c).
 
-(* reset_stack *)
+(* reset_stack: close_upvalues(0) (commit fef17f0), stack.clear(), frames.clear() - of the ACTIVE fiber *)
 Definition clear_fiber (f : fiber) : fiber :=
-  mkFiber 0 0 (fb_handlers f) (fb_retpend f) (fb_errip f) (fb_open_upv f).
+  mkFiber 0 0 (fb_handlers f) (fb_retpend f) (fb_errip f) false.
 Definition m_reset_stack (c : carried) : carried :=
   match c_fibers c with
   | [] => c
@@ -181,10 +182,11 @@ Definition m_reset_stack (c : carried) : carried :=
 Definition dangle (g : globals) : globals :=
   fun k => match g k with Some (VClosure _ z) => Some (VClosure true z) | v => v end.
 
-(* runtime_error: store_error_ip_or, trace, reset_stack.  Upvalues are NOT closed. *)
+(* runtime_error: store_error_ip_or, trace, reset_stack.  The upvalues of the active fiber are closed; those of the
+   fibers that CALLED it are not, and these fibers die with the run (the next execute drops the chain). *)
 Definition m_runtime_error (c : carried) : carried :=
   let c1 := m_reset_stack c in
-  if fb_open_upv (active c) then with_globals (dangle (c_globals c1)) c1 else c1.
+  if existsb fb_open_upv (tl (c_fibers c)) then with_globals (dangle (c_globals c1)) c1 else c1.
 
 (* the final Return of the script: its frame is popped, its slot truncated *)
 Definition m_run_ok (c : carried) : carried :=
@@ -437,6 +439,7 @@ Definition code_where (w : where_) : list instr :=
   | WClassDefNested => [ICall; IDeclClass; IInheritBad]
   | WCapture => [ICall; ICapture 41; IThrow 1]
   | WBuiltin => [IPush false; IBuiltinErr KAttr attr_msg; IOut "nf"; IEndFinally true]
+  | WCaptureFiber => [ICall; ICapture 41; IFiberEnter; IThrow 1]
   end.
 
 Definition code_of (s : snip) : list instr :=
@@ -468,6 +471,7 @@ Definition chunks_where (w : where_) : nat :=
   | WNested d => S (depth_nat d)
   | WFiber | WFinallyRet | WClassDefNested => 2
   | WCapture => 3
+  | WCaptureFiber => 4
   end.
 Definition chunks_of (s : snip) : nat :=
   match s with
